@@ -173,6 +173,10 @@ class Rec:
 def parse_fn(g, entry):
     if entry is None:
         return g.parse
+    if isinstance(entry, tuple):
+        # a parameterised class used as entry point: Cls.parse(*args) returns the parse function
+        name, args = entry
+        return getattr(g, name).parse(*args)
     return getattr(g, entry).parse
 
 
